@@ -189,7 +189,7 @@ func build(scratch string, race bool) (string, error) {
 
 func simCmd(bin string, env map[string]string) *exec.Cmd {
 	cmd := exec.Command(bin, "-test.run", "^TestSim$", "-test.timeout", "0")
-	cmd.Env = append(os.Environ(), "GORACE=halt_on_error=1 exitcode=66")
+	cmd.Env = append(os.Environ(), "GORACE=halt_on_error=1 exitcode=66", "VSIM_FAKESSH="+filepath.Join(verifDir, "bin", "fakessh"))
 	for k, v := range env {
 		cmd.Env = append(cmd.Env, k+"="+v)
 	}
